@@ -328,6 +328,21 @@ func TestVerifScan(t *testing.T) {
 		if len(run.leftOpen) > 0 {
 			rep.bad("region-scanner-left-open", "%s: region scanners %v were neither exhausted nor closed", sc.name, run.leftOpen)
 		}
+		// "... by the server declaring no more results while a region scanner is still open": that region scanner is sent an
+		// explicit close (whether or not the server has already let go of it)
+		declared := map[any]bool{}
+		for _, e := range run.events {
+			switch {
+			case e["ev"] == "scanResp" && e["noMoreResults"] == true && e["moreInRegion"] == true:
+				declared[e["scanner"]] = true
+			case e["ev"] == "scanClose":
+				delete(declared, e["scanner"])
+			}
+		}
+		for id := range declared {
+			rep.bad("region-scanner-left-open:server-declared-the-scan-over", "%s: the server declared the scan over while region scanner %v still had rows; "+
+				"the client never sent it a close", sc.name, id)
+		}
 		for _, e := range run.events {
 			if e["ev"] == "closeBlocked" {
 				rep.bad("close-blocked", "%s: Close took %v ns of virtual time", sc.name, e["virtual_ns"])
